@@ -116,7 +116,8 @@ class SpecError(Exception):
     pass
 
 
-def spec_stream(fs, topdir, content, linebuf=None):
+def spec_stream(fs, topdir, content, linebuf=None, trunc=None):
+    """trunc (classification of F10-LONGNAME only): explicit include names are cut to that many bytes"""
     visited, skipped, exprs = [], [0], []
 
     def walk(content):
@@ -126,6 +127,8 @@ def spec_stream(fs, topdir, content, linebuf=None):
                 exprs.append(arg)
             elif kind == "include":
                 name = arg if arg.startswith(("/", "./", "../")) else topdir + "/" + arg
+                if trunc and arg.startswith(("/", "./", "../")):
+                    name = arg[:trunc]
                 if name in visited:
                     skipped[0] += 1
                     continue
@@ -137,7 +140,7 @@ def spec_stream(fs, topdir, content, linebuf=None):
     return exprs, skipped[0]
 
 
-def spec_assemble(case, linebuf=None):
+def spec_assemble(case, linebuf=None, trunc=None):
     """-> ('ok', exprs, skipped, excluded exprs) | ('error',).  Sources in order; an exclusion file ('x') is read
     like every ^file, its hosts are excluded instead of targeted; WCOLL only when no source of targets is given"""
     fs = case["fs"]
@@ -157,14 +160,14 @@ def spec_assemble(case, linebuf=None):
             elif s[0] in ("f", "x"):
                 if s[1] not in fs or not fs[s[1]][0]:
                     raise SpecError(s[1])
-                e, k = spec_stream(fs, spec_dir(s[1]), fs[s[1]][1], linebuf)
+                e, k = spec_stream(fs, spec_dir(s[1]), fs[s[1]][1], linebuf, trunc)
                 if s[0] == "f":
                     exprs += e
                 else:
                     excluded += e
                 skipped += k
             else:
-                e, k = spec_stream(fs, ".", stdin, linebuf)
+                e, k = spec_stream(fs, ".", stdin, linebuf, trunc)
                 stdin = ""
                 exprs += e
                 skipped += k
@@ -822,6 +825,63 @@ def pinned_cases(base, linebuf):
                 s, w, e = [("w", "z[1-3]")] + [("x", "site/all")], ["z[1-3]", ("x", "^site/all")], None
             c = add("descriptors:%s:%s" % (shape, kind), d, s, w, env=e, stream="wide", shape=shape, nofile=limit)
             c["duplicates"] = k
+    # ---- I. WCOLL set to the EMPTY string, empty option arguments, an empty file name (`^`, `-^`)
+    for tag, srcs, wargs, env in (("wcoll-empty", [], [], ""), ("wcoll-empty-overridden", [("w", "w1")], ["w1"], ""),
+                                  ("wcoll-empty+exclusion-only", [("xw", "w1")], ["-w1"], ""),
+                                  ("w-empty-arg:wcoll", [], [""], "t/W"), ("w-empty-arg:noenv", [], [""], None),
+                                  ("w-only-commas:wcoll", [], [",,"], "t/W"), ("x-empty-arg:wcoll", [], [("x", "")], "t/W"),
+                                  ("w-empty-arg-then-word", [("w", "w1")], ["", "w1"], "t/W")):
+        add("empty:%s" % tag, base_disk, srcs, wargs, env=env)
+    add("empty:file-name-empty", base_disk, [("f", "")], ["^"], stream="broken")
+    add("empty:file-name-empty:after-word", base_disk, [("w", "w1"), ("f", "")], ["w1,^"], stream="broken")
+    add("empty:xfile-name-empty", base_disk, [("w", "w1"), ("x", "")], ["w1", ("x", "^")], stream="broken")
+    add("empty:file-name-empty:wcoll-set", base_disk, [("f", "")], ["^"], env="t/W", stream="broken")
+    # ---- stdin named more than once, in every position (Props/C10 `later_stdin_sources_are_empty_files`: every later
+    # one is an empty file); with an exclusion read from stdin: model correspondence only (stream `malformed`)
+    S2 = "s1\n#include t/B\ns2 # c\n"
+    for tag, srcs, wargs, env, stream in (
+            ("w-w1-w", [("s",), ("w", "w1"), ("s",)], ["-", "w1", "-"], None, "plain"),
+            ("joined", [("s",), ("w", "w1"), ("s",)], ["^-,w1,^-"], None, "plain"),
+            ("thrice", [("s",), ("s",), ("s",)], ["-", "^-", "-"], "t/W", "plain"),
+            ("word-first", [("w", "w1"), ("s",), ("f", "t/A"), ("s",)], ["w1", "-", "^t/A,^-"], None, "plain"),
+            ("then-wcoll-dash", [("s",)], ["-"], "-", "plain"),
+            ("x-then-w", [], [("x", "^-"), "-"], None, "malformed"),
+            ("w-then-x", [], ["-", ("x", "^-")], None, "malformed"),
+            ("x-then-wcoll-dash", [], [("x", "^-")], "-", "malformed"),
+            ("dash-caret-dash-joined", [], ["^-,w1,-^-"], None, "malformed")):
+        add("stdin-twice:%s" % tag, base_disk, srcs, wargs, stdin=S2, env=env, stream=stream)
+    # ---- a -w word the parser refuses without a message (unbalanced bracket): an error since /repo d1c94df, wherever it
+    # stands and whatever else is named (model correspondence only)
+    for i, wargs in enumerate((["b,a[1"], ["a[1,b"], ["a[1"], ["b", "a[1"], ["^t/A,a[1"], ["a[1", "^t/A"], ["b,a]1"], ["a[1,-b"])):
+        add("unparsable-word:%d" % i, base_disk, [], wargs, stream="malformed")
+    add("unparsable-word:wcoll-not-consulted", base_disk, [], ["a[1"], env="t/W", stream="malformed")
+    # ---- J. include names around the reader's path buffer (fq_path[PATHBUF], PATHBUF = PATH_MAX): explicit names
+    # (`./`, absolute) of PATHBUF-2, PATHBUF-1 bytes exist and are read; a name of PATHBUF bytes or more CANNOT exist —
+    # an error, although a file sits at the name cut to PATHBUF-1 bytes (F10-LONGNAME); bare names are looked up as
+    # DIR/NAME: fine up to PATHBUF-1 bytes in all, an error beyond.  (Also: `#include` lines far longer than the line buffer.)
+    for L in (300, 1023, 1024, 1025, 2046, 2047, 2048, 2049, 3000, PATHBUF - 3, PATHBUF - 2, PATHBUF - 1):
+        rel = long_rel(L, first="./")
+        ct = "a1\n#include %s\na2\n" % rel
+        add("longname:explicit:%d" % L, {"t/A": (True, ct), rel[2:]: (True, "long%d\n" % L)},
+            [("f", "t/A")], ["^t/A"], stream="longname", fs={"t/A": (True, ct), rel: (True, "long%d\n" % L)})
+    for L in (PATHBUF, PATHBUF + 1, PATHBUF + 904):
+        rel = long_rel(PATHBUF - 1, first="./")
+        name = rel + "X" * (L - len(rel))
+        ct = "a1\n#include %s\na2\n" % name
+        add("longname:explicit-too-long:%d" % L, {"t/A": (True, ct), rel[2:]: (True, "cut-name[1-2]\n")},
+            [("f", "t/A")], ["^t/A"], stream="longname", fs={"t/A": (True, ct), rel: (True, "cut-name[1-2]\n")})
+    for total in (PATHBUF - 2, PATHBUF - 1):
+        name = long_rel(total - 2)                       # looked up as t/NAME
+        ct = "a1\n#include %s\na2\n" % name
+        add("longname:bare:%d" % total, {"t/A": (True, ct), "t/" + name: (True, "bare%d\n" % total)}, [("f", "t/A")], ["^t/A"],
+            stream="longname", fs={"t/A": (True, ct), "t/" + name: (True, "bare%d\n" % total)})
+    for total in (PATHBUF, PATHBUF + 1):
+        name = long_rel(total - 2)
+        ct = "a1\n#include %s\na2\n" % name
+        # (a readable decoy sits at DIR/NAME cut to PATHBUF-1 bytes: a lookup that lets snprintf truncate finds it)
+        cut = ("t/" + name)[:PATHBUF - 1]
+        add("longname:bare-too-long:%d" % total, {"t/A": (True, ct), cut: (True, "cut-bare\n")}, [("f", "t/A")], ["^t/A"],
+            stream="broken", fs={"t/A": (True, ct), cut: (True, "cut-bare\n")})
     # the streams read_wcoll opens ITSELF (one per ^file / -x ^file / WCOLL): many file sources on one command line
     tf = {"t/A": (True, "a1\n"), "t/B": (True, "b1\n")}
     for kfiles in (20, 60):
@@ -842,6 +902,9 @@ def materialise(case):
     os.chmod(d, 0o755)
     for rel, (rd, content) in case["disk"].items():
         p = os.path.join(d, rel)
+        if len(p) >= 4000:
+            write_deep(d, rel, content, rd)         # (a path near PATH_MAX: component by component, through directory fds)
+            continue
         os.makedirs(os.path.dirname(p), exist_ok=True)
         q = os.path.dirname(p)
         while len(q) >= len(d):
@@ -850,6 +913,70 @@ def materialise(case):
         with open(p, "wb") as f:
             f.write(content.encode("latin-1"))
         os.chmod(p, 0o644 if rd else 0)
+
+
+def write_deep(d, rel, content, rd):
+    """create d/rel although the path string is longer than one system call takes (PATH_MAX)"""
+    comps = [c for c in rel.split("/") if c not in ("", ".")]
+    fd = os.open(d, os.O_RDONLY | os.O_DIRECTORY)
+    try:
+        for c in comps[:-1]:
+            try:
+                os.mkdir(c, 0o755, dir_fd=fd)
+            except FileExistsError:
+                pass
+            os.chmod(c, 0o755, dir_fd=fd)
+            nfd = os.open(c, os.O_RDONLY | os.O_DIRECTORY, dir_fd=fd)
+            os.close(fd)
+            fd = nfd
+        ffd = os.open(comps[-1], os.O_WRONLY | os.O_CREAT | os.O_TRUNC, 0o644, dir_fd=fd)
+        os.write(ffd, content.encode("latin-1"))
+        os.fchmod(ffd, 0o644 if rd else 0)
+        os.close(ffd)
+    finally:
+        os.close(fd)
+
+
+def long_rel(n, first="", last="f"):
+    """a relative path of exactly n bytes: `first` then components of 255 bytes, ending in a file component"""
+    parts = []
+    rem = n - len(first)
+    while rem > 256:
+        parts.append("a" * 255)
+        rem -= 256
+    if rem < 1:
+        raise ValueError(n)
+    parts.append((last * rem)[:rem])
+    p = first + "/".join(parts)
+    assert len(p) == n, (len(p), n)
+    return p
+
+
+UNPARSED = ["?"]        # a -w word the hostlist parser refuses without a message (`a[1`): "error" (opt.c since /repo d1c94df:
+                        # errx "invalid host expression") or "dropped" (before: left out, exit 0) - probed
+
+
+def unparsable(e):
+    return e.count("[") != e.count("]")
+
+
+PATHBUF = 4096          # sizeof fq_path in wcoll_ctx_read_file = PATH_MAX (Opt/Wcoll.lean `PATHBUF`)
+LONGNAME = ["?"]        # "truncated": an explicit include name of PATHBUF bytes or more is cut to PATHBUF-1 bytes and the
+                        # file of THAT name is read (F10-LONGNAME, as found); "refused": an error (probed)
+
+
+def long_explicit_includes(case):
+    """the explicit include names (`/`, `./`, `../`) of PATHBUF bytes or more in a case's files and stdin"""
+    out = []
+    for ct in [v[1] for v in case["disk"].values()] + [case["stdin"] or ""]:
+        if len(ct) < PATHBUF:
+            continue
+        for l in ct.split("\n"):
+            if len(l) >= PATHBUF and l.startswith("#include"):
+                t = l[8:].split()
+                if len(t) == 1 and len(t[0]) >= PATHBUF and t[0].startswith(("/", "./", "../")):
+                    out.append(t[0])
+    return out
 
 
 def run_real(pdsh, case, use_exec=False, attempt=0):
@@ -1077,7 +1204,7 @@ def case_json(c):
                                                    for p, (rd, ct) in v.items()}) for k, v in c.items()} | \
         {"full": {"disk": {p: [rd, ct] for p, (rd, ct) in c["disk"].items()},
                   "fs": {p: [rd, ct] for p, (rd, ct) in c["fs"].items()}},
-         "cmd": "cd CASEDIR && %s env -i %spdsh -Q %s" % (" ".join(SETPRIV), ("WCOLL=%s " % c["env"]) if c["env"] else "",
+         "cmd": "cd CASEDIR && %s env -i %spdsh -Q %s" % (" ".join(SETPRIV), ("WCOLL='%s' " % c["env"]) if c["env"] is not None else "",
                                                           " ".join("-%s '%s'" % opt_kind(o) for o in c["wargs"]))}
 
 
@@ -1135,22 +1262,35 @@ def judge(ctx, pdsh, cases, mode, linebuf):
             continue
         # ---------------- correspondence: model vs real
         mf = ml.split(" ")
-        # F10-TOPFD mirrored: read_wcoll leaves the stream of every file source open; the model's ghost count says how
-        # many, the probe (TOPFD[0]: the number of file sources at which the real pdsh runs out under 40 descriptors)
+        # only on a tree WITHOUT /repo 8d15944 (F10-TOPFD, probed; mode `+leak`): read_wcoll leaves the stream of every
+        # file source open; the model's ghost count says how many, the probe (TOPFD[0]: the number of file sources at which the real pdsh runs out under 40 descriptors)
         # says when that is too many
         exhausted = False
         if len(mf) == 8 and TOPFD[0] and r.get("nofile"):
             exhausted = int(mf[6]) >= TOPFD[0] - (NOFILE_DEFAULT - r["nofile"])
         res_top = out[-1]
         res_top["top_open"] = int(mf[6]) if len(mf) == 8 else None
+        longinc = long_explicit_includes(c)
         if len(mf) != 8:
             v.append(("disagreement", "model answer", ml[:200]))
+        elif longinc and LONGNAME[0] == "refused":
+            pass        # F10-LONGNAME repaired in this tree: the model (Opt/Wcoll.lean `resolve`, the code as found) cuts the
+            #             name; `Opt/WcollLongName.lean` `resolveR` refuses it, which is what the oracle below demands
         elif exhausted:
             if not (r["rc"] == 1 and r["emfile"]):
                 v.append(("disagreement", "descriptors", "model: %s streams left open by read_wcoll exhaust the limit %s, real rc=%s %s" %
                           (mf[6], r["nofile"], r["rc"], r["err"][-100:])))
         else:
             status, nwarn, created, exprs = mf[0], int(mf[1]), mf[2], unl(mf[3])
+            badword = status == "ok" and any(unparsable(e) for e in exprs)
+            if badword and UNPARSED[0] == "error":
+                # wcoll_arg_process checks hostlist_push (/repo d1c94df): the word is an ERROR, not a silently shorter list
+                if r["rc"] != 1 or r["nohosts"]:
+                    v.append(("disagreement", "unparsable word", "a -w word does not parse: expected errx, real rc=%s hosts=%r %s" %
+                              (r["rc"], (r["hosts"] or [])[:5], r["err"][-100:])))
+                continue
+            if badword:
+                exprs = [e for e in exprs if not unparsable(e)]     # the tree before d1c94df: left out without a word
             mhosts = target_hosts(exprs, unl(mf[4]), model_regex(mf[7]))
             if status == "starved":
                 v.append(("disagreement", "model ran out of fuel", ml[:100]))
@@ -1185,6 +1325,13 @@ def judge(ctx, pdsh, cases, mode, linebuf):
             if r["rc"] != 1 or r["nohosts"]:
                 bad = ("unreadable-not-error", "a source or included file is unreadable/missing but pdsh exits %s with "
                        "hosts %r" % (r["rc"], (r["hosts"] or [])[:6]))
+                if longinc and r["rc"] == 0:
+                    spt = spec_assemble(c, trunc=PATHBUF - 1)
+                    if spt[0] == "ok" and target_hosts(spt[1], spt[3], spec_regex(c)) == r["hosts"]:
+                        bad = ("include-name-truncated:explicit-name>=%d-bytes" % PATHBUF,
+                               "`#include %s...` names a file of %d bytes that cannot exist; pdsh cuts the name to %d bytes and "
+                               "targets the hosts of THAT file %r instead of failing" %
+                               (longinc[0][:40], len(longinc[0]), PATHBUF - 1, (r["hosts"] or [])[:6]))
         else:
             hosts = target_hosts(sp[1], sp[3], spec_regex(c))
             if hosts is None:
@@ -1258,7 +1405,10 @@ def run(ctx):
                    "followed by a line / last unterminated / last terminated / in an included file / stdin / WCOLL / comment tail / all "
                    "blank; lexical forms incl. CR; #include look-alikes; missing and unreadable files at every depth x 5 source "
                    "positions; more skipped duplicates than descriptors (3 shapes x 3 ways to name the top file); 20 and 60 file "
-                   "sources on one command line under 40 descriptors.  THEN cases = generated file trees (1-12 files in the top file's directory, a sub-directory or elsewhere; "
+                   "sources on one command line under 40 descriptors; WCOLL='' / empty -w and -x arguments / the empty file name `^`; stdin named "
+                   "two and three times in every position (also as an exclusion file); include names around the path buffer (explicit names "
+                   "of 300..PATHBUF-1 bytes read, PATHBUF, PATHBUF+1, 5000 bytes with a file at the cut name; bare names with DIR/NAME of "
+                   "PATHBUF-2..PATHBUF+1 bytes with a decoy at the cut name).  THEN cases = generated file trees (1-12 files in the top file's directory, a sub-directory or elsewhere; "
                    "include graphs chain/tree/diamond/cycle/cycle-to-top/self/random; include names bare, sub/NAME, "
                    "./, ../, absolute, and names that merely start with dots (.extraB, ..racksB, .d/listB: hidden "
                    "files/sub-directories, with decoy files of the same name in the current directory); pdsh runs in a "
@@ -1292,7 +1442,8 @@ def run(ctx):
         # F: every fgets piece parsed on its own (D12); G: the repaired reader AS WRITTEN — pieces of the same buffer
         # glued until one holds a newline (byte-level model; Props/C10 `glued_pieces_whole`: = whole lines)
         mode = ("F%d" % linebuf) if splits else ("G%d" % linebuf)
-        # F10-TOPFD: does read_wcoll leave the file it opened open?  the smallest number of `^file` sources on one
+        # read_wcoll closes the file it opened (/repo 8d15944; the model's default).  Probe for the older form
+        # (F10-TOPFD, a `fixed` finding: reported as a VIOLATION with the pinned command line): the smallest number of `^file` sources on one
         # command line that runs out of NOFILE_DEFAULT descriptors (none up to 64: it closes them)
         TOPFD[0] = 0
         for kf in (64, 40, 39, 38, 37, 36, 35, 34, 33, 32, 31, 30, 28, 24, 16):
@@ -1303,8 +1454,16 @@ def run(ctx):
                 TOPFD[0] = kf
             else:
                 break
-        if not TOPFD[0]:
-            mode += "+c"
+        q = subprocess.run([pdsh, "-Q", "-w", "b,a[1"], stdout=subprocess.PIPE, stderr=subprocess.PIPE)
+        UNPARSED[0] = "error" if q.returncode == 1 else "dropped"
+        # F10-LONGNAME (open): an explicit include name of PATHBUF bytes or more — cut and read (as found) or refused?
+        rel = long_rel(PATHBUF - 1, first="./")
+        pl = {"stream": "probe", "disk": {"A": (True, "#include %sX\n" % rel), rel[2:]: (True, "cut1\n")}, "fs": {},
+              "sources": [], "wargs": ["^A"], "stdin": None, "env": None, "casedir": os.path.join(base, "probe")}
+        pr3 = run_real(pdsh, pl)
+        LONGNAME[0] = "truncated" if (pr3["rc"] == 0 and pr3["hosts"] == ["cut1"]) else "refused"
+        if TOPFD[0]:
+            mode += "+leak"         # the reader BEFORE /repo 8d15944 (the model's default is the code that closes)
         # the small expander agrees with the real parser on the generator's expressions
         for e in EXPRS + ["w[2-3]", "v[1,4]z"]:
             word = e.split("#")[0].strip(" \t")
@@ -1354,6 +1513,8 @@ def run(ctx):
                                       "stdin": None, "env": None, "casedir": os.path.join(base, "b%d" % k), "nfiles": 1})
                         k += 1
         dist = {"streams": {}, "shapes": {}, "files": {}, "rc": {}, "reader": mode,
+                "explicit_include_name_of_%d_bytes_or_more" % PATHBUF: LONGNAME[0],
+                "unparsable_w_word": UNPARSED[0],
                 "read_wcoll_leaves_its_file_open(file sources that exhaust %d descriptors)" % NOFILE_DEFAULT: TOPFD[0], "max_line_ge_2047": 0,
                 "with_stdin": 0, "with_env": 0, "skips": 0, "branches": {b: 0 for b in BRANCHES}}
         distinct = set()
